@@ -185,7 +185,8 @@ impl Parseable for Test {
                 unary!(
                     "-perm",
                     Test::Perm,
-                    quote_delimiter().and_then(PermCheck::parse)
+                    // The whole word has to be a permission, `0777x` or `u+x,` are not
+                    quote_delimiter().and_then(terminated(PermCheck::parse, eof))
                 ),
                 unary!("-pool", Test::Pool, String::parse),
                 literal("-readable").value(Test::Readable),
